@@ -501,3 +501,20 @@ Proof.
     exists (into_inner (mt st)). eexists. split; reflexivity.
   - destruct s; discriminate.
 Qed.
+
+(** the two frame statements together, and the two directions of [get_used_global_args] *)
+Theorem globals_frame : forall fuel globals m,
+  (matches_depth m <= fuel)%nat ->
+  (forall g, mem_id g globals = false -> fm_get g (snd (filled fuel globals m)) = None) /\
+  (forall k g, fm_get g (snd (filled fuel globals m)) = None ->
+     option_map (fm_get g) (nth_error (levels (fst (filled fuel globals m))) k) =
+     option_map (fm_get g) (nth_error (levels m) k)).
+Proof. intros fuel globals m H. split; [exact (merge_keys fuel globals m H) | exact (merge_frame fuel globals m H)]. Qed.
+
+Theorem used_globals_iff : forall fuel c m g,
+  mem_id g (used_global_args fuel c m) = true <->
+  exists lc a, In lc (chain_cmds fuel c m) /\ In a (c_args lc) /\ a_global a = true /\ a_id a = g.
+Proof.
+  intros fuel c m g. split; [apply used_globals_sound|].
+  intros [lc [a [H1 [H2 [H3 <-]]]]]. exact (used_globals_complete fuel c m lc a H1 H2 H3).
+Qed.
